@@ -29,3 +29,42 @@ func zzC08ReadyBlocked(spec string) {
 	}
 	zzReach("end")
 }
+
+// The scoped views: `list --ready [--epic E]` and what `claim [--epic E]` chooses from are exactly
+// the items in scope for which the ready predicate holds (the predicate itself is checked against
+// the manual by the unit above).
+func zzC08ScopedReady(spec string) {
+	g := zzC08Graph(spec)
+	e := zzString("epic")
+	listed := listTasks(g, e, true)
+	cands := readyTasks(g, e, kindTask)
+	for _, t := range g.Tasks {
+		inScope := e == "" || t.EpicID == e
+		want := inScope && zzReadySpec(g, t)
+		nl, nc := 0, 0
+		for _, x := range listed {
+			if x == t {
+				nl++
+			}
+		}
+		for _, x := range cands {
+			if x == t {
+				nc++
+			}
+		}
+		if want {
+			zzAssert(nl == 1, "C08/scope: list --ready [--epic E] shows every ready item in scope once")
+		} else {
+			zzAssert(nl == 0, "C08/scope: list --ready [--epic E] shows nothing that is out of scope or not ready")
+		}
+		if want && !t.IsEpic {
+			zzAssert(nc == 1, "C08/scope: claim [--epic E] considers every ready task in scope")
+		} else {
+			zzAssert(nc == 0, "C08/scope: claim [--epic E] considers nothing that is out of scope, not ready, or an epic")
+		}
+	}
+	zzReach("end")
+}
+
+func zzC08_ScopedReady_N3() { zzC08ScopedReady("3;Results=0;RDeps=0;Meta=0;Tombstones=0") }
+func zzC08_ScopedReady_N4() { zzC08ScopedReady("4;Results=0;RDeps=0;Meta=0;Tombstones=0") }
